@@ -7,7 +7,7 @@
    exhibit - the per-process hash seed itself - is explored by repeated process launches. *)
 From Coq Require Import List Arith Permutation.
 Import ListNotations.
-Require Import Gram.Model.ParserPost Gram.Proofs.OrderProofs.
+Require Import Gram.Model.Term Gram.Model.ParserPost Gram.Model.OrderErrs Gram.Proofs.OrderProofs Gram.Proofs.OrderErrsProofs.
 
 Theorem C13_iteration_order_irrelevant : forall l l', (forall v, In v l <-> In v l') -> sort_dedup l = sort_dedup l'.
 Proof. exact sort_dedup_set_only. Qed.
@@ -23,3 +23,31 @@ Theorem C13_example : sort_dedup [3; 1; 3; 0; 1] = [0; 1; 3] /\ sort_dedup [0; 3
 Proof. vm_compute. split; reflexivity. Qed.
 Check C13_example : sort_dedup [3; 1; 3; 0; 1] = [0; 1; 3] /\ sort_dedup [0; 3; 1] = [0; 1; 3].
 Print Assumptions C13_example.
+
+(* The diagnostics themselves, as a list in the order they are pushed (Model/OrderErrs.v: the walk of
+   ParserPost.check_definition with the container's iteration as a parameter and each diagnostic
+   identified by the two definitions its message names). With the code's sort, the list depends only on
+   the set the container holds, for ANY iteration order with ANY multiplicity; its length is the count
+   of the parser model (tied to parser.rs by the correspondence streams); and without the sort two
+   iterations of the same set give different output on the program quoted in the property's text, whose
+   sorted output [(x,w); (x,z); (x,y)] is what the binary prints. *)
+
+Theorem C13_diagnostics_iteration_irrelevant : forall h1 h2, iteration_of h1 -> iteration_of h2 -> forall ds, group_order_errors (fun l => sort_dedup (h1 l)) ds = group_order_errors (fun l => sort_dedup (h2 l)) ds.
+Proof. exact group_errors_iteration_irrelevant. Qed.
+Check C13_diagnostics_iteration_irrelevant : forall h1 h2, iteration_of h1 -> iteration_of h2 -> forall ds, group_order_errors (fun l => sort_dedup (h1 l)) ds = group_order_errors (fun l => sort_dedup (h2 l)) ds.
+Print Assumptions C13_diagnostics_iteration_irrelevant.
+
+Theorem C13_walk_iteration_irrelevant : forall h1 h2, iteration_of h1 -> iteration_of h2 -> forall fuel defs start cur visited errs, check_definition_e (fun l => sort_dedup (h1 l)) fuel defs start cur visited errs = check_definition_e (fun l => sort_dedup (h2 l)) fuel defs start cur visited errs.
+Proof. exact cde_iteration_irrelevant. Qed.
+Check C13_walk_iteration_irrelevant : forall h1 h2, iteration_of h1 -> iteration_of h2 -> forall fuel defs start cur visited errs, check_definition_e (fun l => sort_dedup (h1 l)) fuel defs start cur visited errs = check_definition_e (fun l => sort_dedup (h2 l)) fuel defs start cur visited errs.
+Print Assumptions C13_walk_iteration_irrelevant.
+
+Theorem C13_diagnostics_length_is_model_count : forall fuel defs start cur, snd (check_definition fuel defs start cur [] 0) = length (snd (check_definition_e sort_dedup fuel defs start cur [] [])).
+Proof. exact cde_length_is_model_count. Qed.
+Check C13_diagnostics_length_is_model_count : forall fuel defs start cur, snd (check_definition fuel defs start cur [] 0) = length (snd (check_definition_e sort_dedup fuel defs start cur [] [])).
+Print Assumptions C13_diagnostics_length_is_model_count.
+
+Theorem C13_sort_is_necessary : iteration_of (fun l => l) /\ iteration_of (@rev nat) /\ group_order_errors (fun l => l) c13_defs <> group_order_errors (@rev nat) c13_defs /\ group_order_errors (fun l => sort_dedup l) c13_defs = group_order_errors (fun l => sort_dedup (rev l)) c13_defs /\ group_order_errors (fun l => sort_dedup l) c13_defs = [(0, 3); (0, 2); (0, 1)].
+Proof. exact unsorted_iteration_matters. Qed.
+Check C13_sort_is_necessary : iteration_of (fun l => l) /\ iteration_of (@rev nat) /\ group_order_errors (fun l => l) c13_defs <> group_order_errors (@rev nat) c13_defs /\ group_order_errors (fun l => sort_dedup l) c13_defs = group_order_errors (fun l => sort_dedup (rev l)) c13_defs /\ group_order_errors (fun l => sort_dedup l) c13_defs = [(0, 3); (0, 2); (0, 1)].
+Print Assumptions C13_sort_is_necessary.
